@@ -11,13 +11,13 @@ CLAIMED = {
          "Clamp/range/no-panic for every float32 bit pattern incl. NaN; monotonicity for all pairs; |N(x)-S*x| <= 0.5+s_N; encoders are LUT[N(x)] on both init paths and colour types use the right encoder; a package's encoder result does not change when the other packages' tables come into existence (all six initialisation orders, all x); all 3 x 66,048 encode-table entries within 0.5+s_T codes of the published OETF.",
          "Trusted: executor, solvers, IEEE-754 rounding model (|err| <= u|x|+eta, monotone) for the real-arithmetic parts, gc/amd64 float->int conversion model. Literal half-code reading is relaxed by the a-priori slacks of DESIGN 3.1.", "DESIGN.md 5 C02"),
  "C20": ("model_checking", "exact real arithmetic with rational functions (NRA) for algebra/inverse/primaries; bit-precise float64 queries for exact singularity",
-         "Matrix algebra equals the textbook definitions for all reals; M*Inverse(M)=Inverse(M)*M=I for |det|>=1e-3; generated primaries matrices map (1,1,1) to the white point and unit primaries to their chromaticities for all non-degenerate triangles; Inverse panics on zero/equal-column float64 matrices.",
+         "Matrix algebra equals the textbook definitions for all reals; M*Inverse(M)=Inverse(M)*M=I for |det|>=1e-3; generated primaries matrices map (1,1,1) to the white point and unit primaries to their chromaticities for all non-degenerate triangles (YY = 1) and, for the four built-in primary sets, for free luminances of the white point and the primaries; Inverse panics on zero/equal-column float64 matrices.",
          "Trusted: executor, solvers, rounding budget for the real parts. Not machine-checked: non-singularity of generated matrices (inverse relation follows from the generic inverse theorem when Inverse returns); equal columns 0=2.", "DESIGN.md 5 C20"),
  "C03": ("model_checking", "symbolic execution of ToXYZ/ColorFromXYZ in real arithmetic with one rounding-error variable per float32 operation (signs resolved by interval analysis: linear arithmetic); ground checks of declared constants",
          "For all linear colours in [0,1]^3 and [-1,2]^3 and all four spaces: ToXYZ and ColorFromXYZ are within 1e-6..6e-6 of the reference matrix built independently from the declared chromaticities (and its inverse), both round trips return the input within 2e-6 (proportional bound on the wide box), declared chromaticities match the published ones, (1,1,1) and unit primaries map to the declared white and primaries within 1e-6.",
          "Trusted: executor, solvers, the standard model of IEEE rounding (|e| <= u|x| + eta), textbook reference construction in the harness evaluated in float64.", "DESIGN.md 5 C03"),
  "C04": ("model_checking", "stage decomposition; C04's own obligation (linear stage of the pipeline for all 16 ordered pairs) by symbolic execution with rounding-error variables in linear arithmetic",
-         "For every ordered pair and every linear source colour the pipeline's linear stage is within 4e-6 of the independent colorimetric reference A_ref*d (identity for a space to itself); with the decode (C01), encode (C02) and alpha (C14) contracts this bounds the per-channel code error as stated in evidence.",
+         "Decoding a non-premultiplied 8-bit pixel is the table entry per channel for EVERY alpha (colour independent of alpha, alpha = A/255) in all four spaces; for every ordered pair and every linear source colour the pipeline's linear stage is within 4e-6 of the independent colorimetric reference A_ref*d (identity for a space to itself); with the decode (C01), encode (C02) and alpha (C14) contracts this bounds the per-channel code error as stated in evidence.",
          "Trusted: executor, solvers, rounding model; the glue from stage contracts to the end-to-end statement is arithmetic on the proven bounds (stated, not a query over code).", "DESIGN.md 5 C04"),
  "C05": ("model_checking", "bounded symbolic execution of the real loaders (go/ssa -> SMT-LIB2 bit-vectors, z3)",
          "Every metadata field is proved equal to the container specification's bytes by an unsat verdict over all values of every symbolic header/payload byte of the skeleton files; bounded by skeleton shape (<=2 ancillary chunks/segments, payloads <=5 bytes).",
@@ -38,7 +38,7 @@ CLAIMED = {
          "Every tag entry equals in[offset:offset+size] for every placement of k<=2 tags in an 8-byte data area (k=0 included); the description equals the ASCII bytes of a textDescription, or the UTF-16BE decoding at an 'en' record's declared offset (else some record's) for every placement of <=2 records' strings.",
          "Trusted: executor, z3, real unicode/utf16.Decode executed symbolically on both sides, map iteration modelled as insertion and reverse order. Bounds on counts and string length as stated in evidence.", "DESIGN.md 5 C17"),
  "C18": ("model_checking", "bounded symbolic execution with a counting source; consumption bound asserted on every path",
-         "For skeleton files of every family followed by up to 70000 (thorough 300000) bytes of pixel data the number of bytes the loader pulled from the source is <= needed+64KiB on every path, and the file truncated at `needed` loads to identical metadata.",
+         "For skeleton files of every family, loaded by the family's own loader and by the auto-detecting loader, followed by up to 70000 (thorough 300000) bytes of pixel data the number of bytes the loader pulled from the source is <= needed+64KiB on every path, and the file truncated at `needed` loads to identical metadata.",
          "Trusted: executor, z3; `needed` is computed in the harness from the container layout. 64 MiB payloads are outside the bound; the argument is that the count of requested bytes does not depend on what follows.", "DESIGN.md 5 C18"),
  "C19": ("model_checking", "differential bounded symbolic execution: three specific loaders and autometa.Load on the same symbolic input in one path",
          "auto's metadata/ICC/err-ness equals the first succeeding specific loader's, error without metadata when none succeeds, stream replays the input; over all inputs of every length up to 16 bytes, all skeleton families at every truncation, 9 polyglots, and a family of inputs longer than every internal buffer (4090..9000, thorough 70000, ancillary bytes per format).",
@@ -47,16 +47,16 @@ CLAIMED = {
          "For each explored (source type, destination type, geometry, destination origin, parallelism) configuration and all pixel contents and keys at once, the destination parent's storage equals the reference (per-pixel function at dst.Min+(p-src.Min), everything else untouched); in-place use equals the function of the original pixels; each public image transform is TransformImageColor with its own package's per-colour function.",
          "Trusted: executor (merging/if-conversion cross-validated natively), z3, image/color and image Set/At as the definition of colour-model conversion; workers run sequentially (C11 covers their independence). f ranges over an XOR-keyed family (symbolic keys), not all functions.", "DESIGN.md 5 C10"),
  "C11": ("other", "happens-before encoding (SMT over integer timestamps, sequentially consistent interleavings) built from the symbolic executor's access logs of the real code; models replayed under the Go race detector",
-         "For 19 entry points (the lazily initialised 16-bit table functions, chromatic adaptation, Lab, the XYZ/8-bit conversions and constructors of all four spaces, the four metadata loaders) and for the worker goroutines of TransformImageColor, no scenario of 2-3 concurrent callers (first caller, a caller finding the Once taken, a later caller) admits a sequentially consistent execution with two conflicting plain accesses unordered by happens-before. Not a sampling of schedules: the interleaving is a solver variable.",
+         "For 19 entry points (the lazily initialised 16-bit table functions, chromatic adaptation, Lab, the XYZ/8-bit conversions and constructors of all four spaces, the four metadata loaders) and for the worker goroutines of TransformImageColor, no scenario of 2-3 concurrent callers of one entry point (first caller, a caller finding the Once taken, a later caller), and no pair of first calls of two different entry points touching common package-level state, admits a sequentially consistent execution with two conflicting plain accesses unordered by happens-before. Not a sampling of schedules: the interleaving is a solver variable.",
          "Trusted: executor's access log (cell identity, at most 6 events per instruction), the Go memory model's contracts for sync.Once/WaitGroup/go as stated; caller control flow restricted to the observed variants (one concrete input per entry point). Level 'other': a model of the memory model, not of the runtime.", "DESIGN.md 5 C11"),
  "C12": ("model_checking", "symbolic execution in exact real arithmetic with rational-function tracking; polynomial (in)equalities decided by z3/cvc5 (NRA)",
-         "For all valid white-point pairs: A->B maps white A to white B within 1e-6, equals the Bradford-method matrix built independently from the published constants within 1e-6 per entry, A->A is the identity, xyY and XYZ constructors coincide, Apply is the matrix-vector product. Round trip A->B->A is in the thorough tier; three-point composition is attempted there and reported as a reduced bound if undecided.",
+         "For all valid white-point pairs: A->B maps white A to white B within 1e-6, equals the Bradford-method matrix built independently from the published constants within 1e-6 per entry, A->A is the identity, xyY and XYZ constructors coincide, the XYZ constructor is checked directly on free XYZ white points as well, Apply is the matrix-vector product. Round trip A->B->A is in the thorough tier; three-point composition is attempted there and reported as a reduced bound if undecided.",
          "Trusted: executor, solvers; float rounding not modelled (exact reals over the float64-rounded constants the code uses): rounding budget assumption.", "DESIGN.md 5 C12"),
  "C13": ("model_checking", "symbolic execution in exact real arithmetic; cube roots as witnesses c^3=x; every branch combination a path; NRA queries",
          "ToLAB equals the CIE 1976 definition (written independently) within 1e-3 on the stated boxes, white maps to (100,0,0), multiples of white are neutral, L* monotone in Y, f continuous across the junction, XYZ->Lab->XYZ within 1e-5, no NaN/Inf (positive cube-root bases, non-zero divisors on every path).",
          "Trusted: executor, solvers, exact math.Pow contract (its accuracy outside the claim), rounding budget. Lab->XYZ->Lab is thorough-only/undecided.", "DESIGN.md 5 C13"),
  "C14": ("model_checking", "bit-precise FP queries (alpha round trip for all alphas), symbolic wiring per space with uninterpreted tables, per-alpha real-arithmetic obligations with rounding-error variables, ground table lemma",
-         "Alpha passes through decode and encode bit-identically for all 65536/256 alphas; constructors return exactly A/max and zero colour for transparent premultiplied/generic pixels; opaque constructors agree; linearised premultiplied channels stay <= alpha for every r<=a (symbolic r) for the explored alphas, given the exhaustively checked table lemma T16[r]<=r/65535.",
+         "Alpha passes through decode and encode bit-identically for all 65536/256 alphas; every encoder writes a float32 alpha as 0 below 0, the maximum from 1 up (+Inf and huge values included) and round-half-up(alpha*max) inside, stated independently of the quantiser; constructors return exactly A/max and zero colour for transparent premultiplied/generic pixels; opaque constructors agree; linearised premultiplied channels stay <= alpha for every r<=a (symbolic r) for the explored alphas, given the exhaustively checked table lemma T16[r]<=r/65535.",
          "Trusted: executor, solvers, IEEE rounding model for the real-arithmetic part; quick tier explores 1033 alphas (thorough: all). ColorFromNRGBA on a transparent pixel keeps the colour (not claimed).", "DESIGN.md 5 C14"),
  "C15": ("model_checking", "bounded symbolic execution of the three conversion helpers against the real image/draw.Draw executed symbolically; all pixel bytes symbolic; bit-vector equality per output byte",
          "For 15 source types x 3 (thorough 8) geometries x 6 parallelism values, with every byte of pixel storage symbolic, the helper's Pix/Stride/Rect equal those produced by draw.Draw(Src) for all pixel contents at once; identity for same-type input; input unmodified.",
